@@ -407,7 +407,8 @@ static int print_int32(int32_t n, char *p)
 
     if ((sign = n < 0)) {
         *p++ = '-';
-        n = -n;
+        /* Negate as unsigned: `-n` overflows for the minimum value. */
+        return print_uint32((uint32_t)0 - (uint32_t)n, p) + sign;
     }
     return print_uint32((uint32_t)n, p) + sign;
 }
@@ -418,7 +419,8 @@ static int print_int64(int64_t n, char *p)
 
     if ((sign = n < 0)) {
         *p++ = '-';
-        n = -n;
+        /* Negate as unsigned: `-n` overflows for the minimum value. */
+        return print_uint64((uint64_t)0 - (uint64_t)n, p) + sign;
     }
     return print_uint64((uint64_t)n, p) + sign;
 }
